@@ -18,6 +18,7 @@ import (
 	"strconv"
 	"strings"
 	"sync"
+	"syscall"
 	"time"
 
 	"github.com/lindb/common/pkg/ltoml"
@@ -81,6 +82,8 @@ type session struct {
 	content  map[string]string  // fam/f -> content token read back from the closed table
 	existed  int                // mcreate on an already existing file
 	forceFlu bool               // flush the table writer after every write (partial-table images)
+	failClose string            // fam/f: the close of this table fails with ENOSPC on its final flush (one shot)
+	extraKind string            // what the next extra image shows (branch label)
 }
 
 var (
@@ -200,7 +203,15 @@ type tableWriter struct {
 	path   string
 }
 
+func (w *tableWriter) failing() bool {
+	return w.s != nil && w.s.failClose != "" && w.s.failClose == fmt.Sprintf("%d/%d", w.fam, w.f)
+}
+
 func (w *tableWriter) Write(p []byte) (int, error) {
+	if w.failing() {
+		// the bytes stay in the (emulated) write buffer: the final flush is the one that fails
+		return len(p), nil
+	}
 	n, err := w.BufioWriter.Write(p)
 	if w.s != nil && w.s.forceFlu && !w.s.muted {
 		_ = w.BufioWriter.Flush()
@@ -210,6 +221,12 @@ func (w *tableWriter) Write(p []byte) (int, error) {
 }
 
 func (w *tableWriter) Close() error {
+	if w.failing() {
+		// injected I/O fault: the final buffer flush fails (nothing of the footer reaches the file)
+		w.s.failClose = ""
+		_ = w.BufioWriter.Close()
+		return syscall.ENOSPC
+	}
 	err := w.BufioWriter.Close()
 	if w.s != nil && !w.s.muted {
 		key := fmt.Sprintf("%d/%d", w.fam, w.f)
@@ -313,10 +330,24 @@ func installSeams() (restore func()) {
 			return &manifestWriter{BufioWriter: w, s: s, n: n}, nil
 		},
 		func(name string, data []byte, perm os.FileMode) error {
+			s := findSession(name)
+			if s != nil && s.onOp != nil && !s.muted {
+				// os.WriteFile = truncating open, write, close: the point after the open is a crash point
+				// (the file exists and is empty). Same model prefix: nobody reads CURRENT.tmp.
+				if f, e := os.OpenFile(name, os.O_WRONLY|os.O_CREATE|os.O_TRUNC, perm); e == nil {
+					f.Close()
+					s.extraKind = "writefile-truncated-not-written"
+					s.record(fsop{}, true)
+				}
+			}
 			err := os.WriteFile(name, data, perm)
-			if s := findSession(name); s != nil {
+			if s != nil {
 				n, _ := parseManifestNo(string(data))
-				s.record(fsop{kind: "curtmp", a: n, tok: fmt.Sprintf("curtmp(%d)", n)}, false)
+				tok := fmt.Sprintf("curtmp(%d)", n)
+				if filepath.Base(name) != version.VerifC01CurrentFileName()+"."+version.TmpSuffix {
+					tok = fmt.Sprintf("write(%s,%d)", filepath.Base(name), n)
+				}
+				s.record(fsop{kind: "curtmp", a: n, tok: tok}, false)
 			}
 			return err
 		},
@@ -741,7 +772,8 @@ func copyDir(src, dst string) error {
 type image struct {
 	k     int // number of FS operations completed
 	path  string
-	extra bool   // taken after a forced table-writer flush (same model prefix, table half-written)
+	extra bool   // same model prefix as the previous image: half-written table / truncated-but-unwritten file
+	extraKind string
 	prev  string // kind of the operation just completed
 	opIdx int    // index inside the current operation's trace (len(ops) at capture)
 }
@@ -813,7 +845,12 @@ func (h *hist) takeImage(extra bool) {
 	if n := len(h.sess.ops); n > 0 {
 		prev = h.sess.ops[n-1].kind
 	}
-	h.imgs = append(h.imgs, image{k: h.sess.total, path: p, extra: extra, prev: prev, opIdx: len(h.sess.ops)})
+	ek := ""
+	if extra {
+		ek = h.sess.extraKind
+		h.sess.extraKind = ""
+	}
+	h.imgs = append(h.imgs, image{k: h.sess.total, path: p, extra: extra, extraKind: ek, prev: prev, opIdx: len(h.sess.ops)})
 }
 
 // guard runs f; a panic inside lindb becomes an oracle failure and the output "panic".
@@ -879,13 +916,13 @@ func (h *hist) reopenImage(path string) (r reopened) {
 // property-level observations of the live store around the operation.
 func (h *hist) checkImages(opDesc string, ops []fsop, before, after string, pristine string) {
 	amb := ambiguous(ops)
-	// window of initJournal: after the new manifest was created, before CURRENT is renamed
+	// window of initJournal: after the new manifest was created, before CURRENT.tmp is written
 	mi, ri, newNo := -1, -1, int64(0)
 	for i, o := range ops {
 		if o.kind == "mcreate" && mi < 0 {
 			mi, newNo = i, o.a
 		}
-		if o.kind == "currename" && ri < 0 {
+		if (o.kind == "currename" || o.kind == "curtmp") && ri < 0 {
 			ri = i
 		}
 	}
@@ -927,7 +964,9 @@ func (h *hist) checkImages(opDesc string, ops []fsop, before, after string, pris
 		if im.opIdx == 0 {
 			prev = "start"
 		}
-		if im.extra {
+		if im.extra && im.extraKind != "" {
+			h.c.Branch("point:" + im.extraKind)
+		} else if im.extra {
 			h.c.Branch("point:half-written-table")
 		} else {
 			h.c.Branch("point:" + prev + ">" + next)
@@ -1252,6 +1291,30 @@ func (h *hist) doFlushCommit(name string) {
 	})
 }
 
+// doFlushFail: Commit of a flusher whose table close fails with an injected ENOSPC on the final flush.
+// The property's clause "a half-written table is never visible": Commit must return the error and
+// commit nothing.
+func (h *hist) doFlushFail(name string) {
+	fs := h.flushers[name]
+	h.runOp("flushfail", true, func() (string, string, bool) {
+		h.sess.failClose = fmt.Sprintf("%s/%d", name, fs.file)
+		err := fs.fl.Commit()
+		h.sess.failClose = ""
+		fs.fl.Release()
+		delete(h.flushers, name)
+		line := "flushfail " + name
+		h.c.Branch("region:table-close-io-error")
+		if err == nil {
+			h.c.Fail("commit-succeeded-on-failed-table", fmt.Sprintf("family %s: the close of table %d failed (ENOSPC on the final flush) but Commit returned success", name, fs.file))
+			return line, "committed", true
+		}
+		if got := h.liveObs().propKey(); got != h.lastObs {
+			h.c.Fail("failed-flush-changed-state", fmt.Sprintf("family %s: Commit returned an error but the store shows %q instead of %q", name, got, h.lastObs))
+		}
+		return line, "ok", true
+	})
+}
+
 func (h *hist) doCompact(name string) {
 	h.runOp("compact", true, func() (string, string, bool) {
 		f := h.store.GetFamily(name)
@@ -1505,6 +1568,12 @@ func runCase(c *core.Ctx, i int, maxOps int) error {
 		}
 		if len(h.flushers) > 0 {
 			choices = append(choices, "fcommit", "fcommit", "fcommit", "fcommit", "fcommit", "fcommit")
+			for _, fs := range h.flushers {
+				if fs.file >= 0 {
+					choices = append(choices, "flushfail")
+					break
+				}
+			}
 		} else if step > 2 {
 			choices = append(choices, "close")
 		}
@@ -1566,6 +1635,15 @@ func runCase(c *core.Ctx, i int, maxOps int) error {
 			h.doFlushStart(name, seqs, kvs)
 		case "fcommit":
 			h.doFlushCommit(anyKey(h.flushers, rng))
+		case "flushfail":
+			var ks []string
+			for k, fs := range h.flushers {
+				if fs.file >= 0 {
+					ks = append(ks, k)
+				}
+			}
+			sort.Strings(ks)
+			h.doFlushFail(ks[rng.Intn(len(ks))])
 		case "compact":
 			h.doCompact(h.fams[rng.Intn(len(h.fams))])
 		case "edit":
@@ -1593,7 +1671,7 @@ func runCase(c *core.Ctx, i int, maxOps int) error {
 }
 
 // nScenarios directed histories run first in every seed (values are still drawn from the case's PRNG).
-const nScenarios = 3
+const nScenarios = 4
 
 func (h *hist) randKVs(n int) [][2]int64 {
 	var kvs [][2]int64
@@ -1622,6 +1700,7 @@ func (h *hist) flushNow(name string, withSeq bool) {
 //	   inside open are crash images): an idle session must not make the next open touch the live manifest
 //	1  a flusher that has created its table but not committed while a compaction of the SAME family
 //	   runs (merge + deferred deleteObsoleteFiles), then commits; close; reopen
+//	3  a flush whose table close fails with an I/O error (must commit nothing), more flushes, compaction, reopen
 //	2  an open dies after a snapshot record of the new manifest (CURRENT not switched); the next open
 //	   re-uses the same MANIFEST number (the file exists, with content); then two more opens
 func runScenario(h *hist, which int) {
@@ -1672,6 +1751,19 @@ func runScenario(h *hist, which int) {
 				h.doFlushCommit("10")
 			}
 		})
+		closeS()
+		open()
+	case 3:
+		h.c.Branch("scenario:table-close-io-error")
+		step(func() { h.flushNow("10", true) })
+		step(func() { h.doFlushStart("10", [][2]int64{{1, 7}}, h.randKVs(3)) })
+		step(func() {
+			if fs, ok := h.flushers["10"]; ok && fs.file >= 0 {
+				h.doFlushFail("10")
+			}
+		})
+		step(func() { h.flushNow("10", false) })
+		step(func() { h.doCompact("10") })
 		closeS()
 		open()
 	case 2:
